@@ -4,7 +4,7 @@ import warnings
 
 from hypothesis import strategies as st
 
-from vlib import dna, gen, plasmid
+from vlib import dna, gen, kits, plasmid
 from vlib.runner import Violation, innermost_moclo_frame, sut
 from checks import c03
 
@@ -13,7 +13,11 @@ LEVEL = "exploration"
 TECHNIQUE = ("property-based metamorphic testing (Hypothesis): every query and "
              "assembly is run on the all-upper-case spelling and on generated "
              "case assignments, outcomes compared case-insensitively")
-RULE = ("(a) C01-style complete assemblies over all enzymes and (b) C03-style overhang "
+RULE = ("(t) typing queries: generated instances of the 85 kit classes and of generic "
+        "classes over the 58 enzymes, optionally with up to 4 undetermined bases N, "
+        "spelled in upper case and in a drawn case assignment: same is_valid, "
+        "overhangs, target and placeholder after .upper(); "
+        "(a) C01-style complete assemblies over all enzymes and (b) C03-style overhang "
         "graphs (successful, with leftovers, and failing in every way), each record "
         "spelled upper, lower or with a drawn per-letter mask. Oracle: the all-upper "
         "run of the same inputs: same is_valid, overhangs and target equal after "
@@ -23,7 +27,7 @@ RULE = ("(a) C01-style complete assemblies over all enzymes and (b) C03-style ov
         "letters differ in case; distinct = distinct spec.")
 ASSUMPTIONS = [
     "when DuplicateModules is raised only the class is compared (which colliding pair is named is unspecified)",
-    "letters are ACGT in either case",
+    "letters are ACGT (typing queries: ACGTN) in either case",
 ]
 LEVEL_TEXT = ("Exploration: sampled case assignments over sampled assemblies/graphs; the "
               "reference outcome is the implementation's own all-upper run, so this "
@@ -60,7 +64,45 @@ def _outcome(V, M, bv, bms, order, seqs):
     return typing, ("product", dna.canon(str(product.seq)), unused)
 
 
+def _typing(cls, word):
+    from Bio.Seq import Seq
+    from moclo.record import CircularRecord
+    ent = cls(CircularRecord(Seq(word), id="x"))
+    if not ent.is_valid():
+        return (False,)
+    out = [True, str(ent.overhang_start()).upper(), str(ent.overhang_end()).upper(),
+           str(ent.target_sequence().seq).upper()]
+    if kits.role_of(cls) == "vector":
+        out.append(str(ent.placeholder_sequence().seq).upper())
+    return tuple(out)
+
+
+def check_typing(spec, ctx):
+    """Kit/generic class instance, optionally with undetermined bases (N),
+    spelled in upper case and in a drawn case assignment."""
+    cls, word, word0, groups = kits.build_instance(spec["inst"])
+    chars = list(word.upper())
+    for i in spec.get("npos") or []:
+        chars[i % len(chars)] = "N"
+    upper = "".join(chars)
+    cased = gen.apply_case(upper, spec["cases"][0])
+    a = sut(_typing, cls, upper)
+    cls2 = kits.resolve_class(spec["inst"]["cls"], fresh=spec["inst"]["cls"].startswith(("gen:", "part:")))
+    b = sut(_typing, cls2, cased)
+    if a[0] != b[0]:
+        raise Violation("TYPING", "%s: %r is_valid=%s but its spelling %r is_valid=%s"
+                        % (cls.__name__, upper, a[0], cased, b[0]))
+    if a != b:
+        raise Violation("TYPING-VALUES", "%s: overhangs/target/placeholder of %r and %r differ beyond case"
+                        % (cls.__name__, upper, cased))
+    mixed = cased != upper
+    ctx.event("typing:" + ("accepted" if a[0] else "rejected"))
+    ctx.note(spec, mixed and a[0], ["kind:typing"] + (["with-N"] if "N" in upper else []))
+
+
 def check(spec, ctx):
+    if spec["kind"] == "typing":
+        return check_typing(spec, ctx)
     if spec["kind"] == "assembly":
         e, g, bv, bms, M, V = plasmid.build_assembly(spec["assembly"], fresh_classes=True)
         order = spec["assembly"]["order"]
@@ -123,5 +165,16 @@ def _specs(draw):
     return {"kind": "graph", "graph": gs, "cases": cases}
 
 
+@st.composite
+def _typing_specs(draw):
+    name = draw(st.sampled_from(kits.all_class_names()))
+    inst = draw(kits.instance_spec(name, max_star=20, max_b=25, min_b=2))
+    spec = {"kind": "typing", "inst": inst, "cases": [draw(gen.case_masks())]}
+    if draw(st.booleans()):
+        spec["npos"] = draw(st.lists(st.integers(0, 400), min_size=1, max_size=4))
+    return spec
+
+
 def strategies(tier):
-    return {"case": (_specs(), 500 if tier == "quick" else 8000)}
+    q = tier == "quick"
+    return {"case": (_specs(), 500 if q else 8000), "typing": (_typing_specs(), 500 if q else 8000)}
